@@ -36,6 +36,8 @@ func init() {
 	wrap("C08", c08WriteOfferedToKeeper)
 	wrap("C20", c20CasTokenForwarded)
 	wrap("C03", c03RootNotPublishedEarly)
+	wrap("C22", c22AsOfTimeAtTxRoot)
+	wrap("C33", c33NamedDatabaseAndCommitIndex)
 	Registry["C20"].Patterns = append(Registry["C20"].Patterns, "./libraries/doltcore/doltdb")
 	Registry["C24"].Patterns = append(Registry["C24"].Patterns, "./libraries/doltcore/env/actions")
 }
@@ -634,5 +636,99 @@ func c03RootNotPublishedEarly(k *eng.Check) {
 			}
 		}
 		k.Require("root-not-published-early", eng.Name(fn)+"#root", "the contents flushed to the backing manifest ahead of the root record carry the journal's current root (j.contents.root), not the proposed root", ok, c.InstrPos(u.(ssa.Instruction)), "the proposed root reaches the manifest before its chunk records are durable")
+	}
+}
+
+// c22AsOfTimeAtTxRoot: an AS OF <timestamp> read inside a transaction starts its commit walk from the branch head as
+// of the transaction's root (like AS OF '<ref>'), not from the live head.
+func c22AsOfTimeAtTxRoot(k *eng.Check) {
+	c := k.C
+	fn := k.Fn("libraries/doltcore/sqle.resolveAsOfTime")
+	if fn == nil {
+		return
+	}
+	live := eng.Calls(fn, eng.Static("(*libraries/doltcore/doltdb.DoltDB).Resolve"), false)
+	k.Require("asof-time-at-tx-root", eng.Name(fn)+"#no-live-resolve", "resolveAsOfTime does not resolve HEAD against the live datasets", len(live) == 0, c.Pos(fn.Pos()), "DoltDB.Resolve reads the current branch head: the read follows other sessions' commits within one transaction")
+	at := eng.Calls(fn, eng.Static("(*libraries/doltcore/doltdb.DoltDB).ResolveByNomsRoot"), false)
+	if len(at) < 1 {
+		k.Unknown("asof-time-at-tx-root", eng.Name(fn)+"#at-root", "a ResolveByNomsRoot call", "none found")
+		return
+	}
+	mTx := eng.Static("libraries/doltcore/sqle/dsess.TransactionRoot")
+	for _, call := range at {
+		a := call.Common().Args
+		ok := len(a) > 0 && eng.Mentions(a[len(a)-1], eng.IsCall(mTx))
+		k.Require("asof-time-at-tx-root", eng.Name(fn)+"#root-arg", "the noms root HEAD is resolved at is dsess.TransactionRoot of this database", ok, c.InstrPos(call.(ssa.Instruction)), "the root argument does not derive from TransactionRoot")
+		k.OnlyAfter("asof-time-at-tx-root", fn, "HEAD is resolved only after TransactionRoot returned nil", eng.NewSet().AddI(call.(ssa.Instruction)), 1, k.OkCalls(fn, "txroot", mTx))
+	}
+}
+
+// c33AsOfOfNamedDatabase: AS OF 'WORKING' / 'STAGED' on a table of database D reads D's roots: resolveAsOfCommitRef asks
+// the session about the database it was called on (not the session's current database), and ResolveRootForRef uses the
+// name it was given.  c33HistoryIndexAtCommit: the history table reads each commit with that commit's own index.
+func c33NamedDatabaseAndCommitIndex(k *eng.Check) {
+	c := k.C
+	mCur := func(ci ssa.CallInstruction) bool { return strings.HasSuffix(eng.CalleeName(ci), ".GetCurrentDatabase") }
+	if fn := k.Fn("libraries/doltcore/sqle.resolveAsOfCommitRef"); fn != nil {
+		calls := eng.Calls(fn, eng.Static("(*libraries/doltcore/sqle/dsess.DoltSession).ResolveRootForRef"), false)
+		if len(calls) < 1 {
+			k.Unknown("asof-working-of-named-db", eng.Name(fn), "the ResolveRootForRef call", "not found")
+		}
+		for _, call := range calls {
+			a := eng.PathArgs(call)
+			var name ssa.Value
+			for _, x := range a {
+				if eng.ShortType(x.Type()) == "string" && name == nil {
+					name = x
+				}
+			}
+			ok := name != nil && !eng.MentionsDeep(name, eng.IsCall(mCur)) && eng.MentionsDeep(name, eng.IsParamOfType("libraries/doltcore/sqle.Database"))
+			k.Require("asof-working-of-named-db", eng.Name(fn)+"#db-name", "the session is asked for the roots of the database the AS OF read is addressed to", ok, c.InstrPos(call.(ssa.Instruction)), "the database name handed to ResolveRootForRef is the session's current database (or does not derive from the Database being read)")
+		}
+	}
+	if fn := k.Fn("(*libraries/doltcore/sqle/dsess.DoltSession).ResolveRootForRef"); fn != nil {
+		var nameP *ssa.Parameter
+		for _, p := range fn.Params {
+			if eng.ShortType(p.Type()) == "string" && nameP == nil {
+				nameP = p
+			}
+		}
+		n := 0
+		for _, call := range eng.Calls(fn, eng.Static("(*libraries/doltcore/sqle/dsess.DoltSession).GetRoots"), false) {
+			n++
+			a := eng.PathArgs(call)
+			ok := false
+			for _, x := range a {
+				if eng.ShortType(x.Type()) == "string" {
+					ok = nameP != nil && eng.Origin(x) == ssa.Value(nameP)
+				}
+			}
+			k.Require("asof-working-of-named-db", eng.Name(fn)+"#uses-db-name", "ResolveRootForRef reads the roots of the database named by its argument", ok, c.InstrPos(call.(ssa.Instruction)), "GetRoots is not given the dbName parameter")
+		}
+		if n < 1 {
+			k.Unknown("asof-working-of-named-db", eng.Name(fn), "the GetRoots call", "not found")
+		}
+	}
+	if fn := k.Fn("(*libraries/doltcore/sqle.HistoryTable).newRowItrForTableAtCommit"); fn != nil {
+		n := 0
+		for _, call := range eng.Calls(fn, func(ci ssa.CallInstruction) bool { return strings.HasSuffix(eng.CalleeName(ci), ".IndexedAccess") }, false) {
+			n++
+			a := call.Common().Args
+			last := a[len(a)-1]
+			_, isParam := eng.Origin(last).(*ssa.Parameter)
+			if ld, isLd := last.(*ssa.UnOp); isLd && ld.Op == token.MUL {
+				// a struct parameter whose fields are read lives in a local cell
+				if cell, isA := ld.X.(*ssa.Alloc); isA {
+					sts := eng.StoresTo(cell)
+					if len(sts) == 1 {
+						_, isParam = sts[0].Val.(*ssa.Parameter)
+					}
+				}
+			}
+			k.Require("history-index-at-commit", eng.Name(fn)+"#IndexedAccess", "the table at a commit is accessed with a lookup built on that commit's own index, not with the lookup built for the current schema", !isParam, c.InstrPos(call.(ssa.Instruction)), "IndexedAccess is given the caller's lookup (current schema's index)")
+		}
+		if n < 1 {
+			k.Unknown("history-index-at-commit", eng.Name(fn), "the IndexedAccess call", "not found")
+		}
 	}
 }
